@@ -29,10 +29,32 @@ use std::pin::Pin;
 use std::sync::{Arc, Mutex};
 use std::task::{Context, Poll};
 
-#[derive(Clone, Copy, Debug, PartialEq, Eq)]
+/// Does the compactor SKIP a segment whose body validates but does not decode completely?
+/// `false`: the unchanged tree merges the readable prefix and removes the segment (known finding
+/// C12:compact:partially-decoded-segment-removed); such cases are oracle-only because the model
+/// (`Fault.readCorrupt`: any body that does not parse is skipped) describes the repaired code.
+/// Set to `true` once /repo has the fix (branch fixes-stream-2, e3c4c78): the cases are then
+/// compared with the model as `corrupt` reads.
+pub const PARTIAL_DECODE_SKIPS: bool = false;
+
+#[derive(Clone, Copy, Debug, PartialEq, Eq, PartialOrd, Ord)]
 pub enum Fault {
+    /// the call returns an error, nothing changed
     Fail,
+    /// a put leaves a torn object and returns an error
     Partial,
+    /// READ corruption (get only; any other call: no effect): the body is cut at `permille` of its length
+    ReadTrunc { permille: u16, persistent: bool },
+    /// READ corruption: `n` bytes flipped (xor `mask`) starting at `permille` of the length, 7 bytes apart
+    ReadFlip { permille: u16, n: u8, mask: u8, persistent: bool },
+    /// READ corruption: the byte at absolute position `pos` xor `mask` (targeted corpus cases)
+    ReadFlipAbs { pos: u32, mask: u8 },
+    /// READ corruption: the body is cut to exactly `len` bytes (targeted corpus cases)
+    ReadTruncAbs { len: u32 },
+    /// READ corruption: empty body
+    ReadEmpty { persistent: bool },
+    /// READ returns the previous version of the object (if the key was ever overwritten)
+    ReadStale,
 }
 
 impl Fault {
@@ -40,7 +62,93 @@ impl Fault {
         match self {
             Fault::Fail => "fail",
             Fault::Partial => "partial",
+            Fault::ReadTrunc { .. } | Fault::ReadTruncAbs { .. } => "read-trunc",
+            Fault::ReadFlip { .. } | Fault::ReadFlipAbs { .. } => "read-flip",
+            Fault::ReadEmpty { .. } => "read-empty",
+            Fault::ReadStale => "read-stale",
         }
+    }
+    pub fn is_read(&self) -> bool {
+        !matches!(self, Fault::Fail | Fault::Partial)
+    }
+    pub fn persistent(&self) -> bool {
+        matches!(self, Fault::ReadTrunc { persistent: true, .. } | Fault::ReadFlip { persistent: true, .. } | Fault::ReadEmpty { persistent: true })
+    }
+    /// the mangled body
+    pub fn mangle(&self, data: &[u8], previous: Option<&Vec<u8>>) -> Vec<u8> {
+        match self {
+            Fault::ReadTrunc { permille, .. } => data[..(data.len() * *permille as usize / 1000).min(data.len())].to_vec(),
+            Fault::ReadFlip { permille, n, mask, .. } => {
+                let mut d = data.to_vec();
+                if !d.is_empty() {
+                    let start = (d.len() * *permille as usize / 1000).min(d.len() - 1);
+                    for i in 0..*n as usize {
+                        let p = start + 7 * i;
+                        if p < d.len() {
+                            d[p] ^= if *mask == 0 { 1 } else { *mask };
+                        }
+                    }
+                }
+                d
+            }
+            Fault::ReadTruncAbs { len } => data[..(*len as usize).min(data.len())].to_vec(),
+            Fault::ReadFlipAbs { pos, mask } => {
+                let mut d = data.to_vec();
+                if (*pos as usize) < d.len() {
+                    d[*pos as usize] ^= *mask;
+                }
+                d
+            }
+            Fault::ReadEmpty { .. } => Vec::new(),
+            Fault::ReadStale => previous.cloned().unwrap_or_else(|| data.to_vec()),
+            _ => data.to_vec(),
+        }
+    }
+}
+
+/// what became of one injected read fault
+#[derive(Clone, Debug)]
+pub struct ReadFaultRec {
+    pub idx: u64,
+    pub key: String,
+    pub kind: &'static str,
+    pub persistent: bool,
+    /// "manifest" | "segment" | "other"
+    pub object: &'static str,
+    /// "rejected" (every parser refuses the body), "validates-undecodable" (segment: opens and
+    /// validates, the records do not decode completely), "benign" (parses to the same content),
+    /// "accepted-different" (parses to DIFFERENT content: the format cannot detect it)
+    pub outcome: &'static str,
+}
+
+fn decode_segment(d: &[u8]) -> Option<Vec<String>> {
+    let r = SegmentReader::open(d).ok()?;
+    r.validate().ok()?;
+    let ds = r.read_all().ok()?;
+    // canonical text (hash values hold HashMaps: byte-wise serialisation is not canonical)
+    Some(ds.iter().map(|x| format!("{} {} {}", hex(x.key.as_bytes()), MRv::from_real(&x.value).show(), x.source_replica.0)).collect())
+}
+
+fn classify_read(key: &str, orig: &[u8], mangled: &[u8]) -> (&'static str, &'static str) {
+    if key.ends_with("manifest.json") {
+        let a = serde_json::from_slice::<Manifest>(orig).ok();
+        let b = serde_json::from_slice::<Manifest>(mangled).ok();
+        ("manifest", match (a, b) {
+            (_, None) => "rejected",
+            (Some(x), Some(y)) if x == y => "benign",
+            _ => "accepted-different",
+        })
+    } else if key.contains("/segments/") {
+        let validates = SegmentReader::open(mangled).ok().map(|r| r.validate().is_ok()).unwrap_or(false);
+        ("segment", match (decode_segment(orig), decode_segment(mangled)) {
+            // opens and validates (checksums fine) but the records do not decode completely
+            (_, None) if validates => "validates-undecodable",
+            (_, None) => "rejected",
+            (Some(x), Some(y)) if x == y => "benign",
+            _ => "accepted-different",
+        })
+    } else {
+        ("other", if orig == mangled { "benign" } else { "rejected" })
     }
 }
 
@@ -61,6 +169,10 @@ pub struct Inner {
     pub snapshots: Vec<Snapshot>,
     pub record: bool,
     pub unmodelled: u64,
+    /// previous version of every key that was overwritten (for stale reads)
+    pub previous: BTreeMap<String, Vec<u8>>,
+    /// what became of every injected read fault that hit a `get`
+    pub read_faults: Vec<ReadFaultRec>,
     /// interleaving control (C13): permits per task tag; `None` = ungated
     pub gate: Option<[u64; 2]>,
 }
@@ -110,6 +222,8 @@ impl FaultStore {
                 snapshots: Vec::new(),
                 record: true,
                 unmodelled: 0,
+                previous: BTreeMap::new(),
+                read_faults: Vec::new(),
                 gate: None,
             })),
             tag: 0,
@@ -159,16 +273,19 @@ impl ObjectStore for FaultStore {
     fn put<'a>(&'a self, key: &'a str, data: &'a [u8]) -> Pin<Box<dyn Future<Output = IoResult<()>> + Send + 'a>> {
         Box::pin(async move {
             Gate { inner: self.inner.clone(), tag: self.tag }.await;
-            match self.begin(format!("put {}", key), Some((key, data))) {
+            match self.begin(format!("put {}", key), Some((key, data))).filter(|f| !f.is_read()) {
                 None => {
-                    self.inner.lock().unwrap().objects.insert(key.to_string(), data.to_vec());
+                    let mut g = self.inner.lock().unwrap();
+                    if let Some(old) = g.objects.insert(key.to_string(), data.to_vec()) {
+                        g.previous.insert(key.to_string(), old);
+                    }
                     Ok(())
                 }
-                Some(Fault::Fail) => Err(injected()),
                 Some(Fault::Partial) => {
                     self.inner.lock().unwrap().objects.insert(key.to_string(), torn_of(data));
                     Err(injected())
                 }
+                Some(_) => Err(injected()),
             }
         })
     }
@@ -184,6 +301,22 @@ impl ObjectStore for FaultStore {
                     .get(key)
                     .cloned()
                     .ok_or_else(|| IoError::new(ErrorKind::NotFound, format!("Key not found: {}", key))),
+                Some(f) if f.is_read() => {
+                    let mut g = self.inner.lock().unwrap();
+                    let idx = g.calls - 1;
+                    match g.objects.get(key).cloned() {
+                        None => Err(IoError::new(ErrorKind::NotFound, format!("Key not found: {}", key))),
+                        Some(orig) => {
+                            let mangled = f.mangle(&orig, g.previous.get(key));
+                            let (object, outcome) = classify_read(key, &orig, &mangled);
+                            g.read_faults.push(ReadFaultRec { idx, key: key.to_string(), kind: f.name(), persistent: f.persistent(), object, outcome });
+                            if f.persistent() {
+                                g.objects.insert(key.to_string(), mangled.clone());
+                            }
+                            Ok(mangled)
+                        }
+                    }
+                }
                 Some(_) => Err(injected()),
             }
         })
@@ -192,7 +325,7 @@ impl ObjectStore for FaultStore {
         Box::pin(async move {
             Gate { inner: self.inner.clone(), tag: self.tag }.await;
             self.inner.lock().unwrap().unmodelled += 1;
-            match self.begin(format!("exists {}", key), None) {
+            match self.begin(format!("exists {}", key), None).filter(|f| !f.is_read()) {
                 None => Ok(self.inner.lock().unwrap().objects.contains_key(key)),
                 Some(_) => Err(injected()),
             }
@@ -201,7 +334,7 @@ impl ObjectStore for FaultStore {
     fn delete<'a>(&'a self, key: &'a str) -> Pin<Box<dyn Future<Output = IoResult<()>> + Send + 'a>> {
         Box::pin(async move {
             Gate { inner: self.inner.clone(), tag: self.tag }.await;
-            match self.begin(format!("delete {}", key), None) {
+            match self.begin(format!("delete {}", key), None).filter(|f| !f.is_read()) {
                 None => {
                     self.inner.lock().unwrap().objects.remove(key);
                     Ok(())
@@ -213,7 +346,7 @@ impl ObjectStore for FaultStore {
     fn list<'a>(&'a self, prefix: &'a str, _t: Option<&'a str>) -> Pin<Box<dyn Future<Output = IoResult<ListResult>> + Send + 'a>> {
         Box::pin(async move {
             Gate { inner: self.inner.clone(), tag: self.tag }.await;
-            match self.begin(format!("list {}", prefix), None) {
+            match self.begin(format!("list {}", prefix), None).filter(|f| !f.is_read()) {
                 None => {
                     let g = self.inner.lock().unwrap();
                     let objects = g
@@ -231,12 +364,14 @@ impl ObjectStore for FaultStore {
     fn rename<'a>(&'a self, from: &'a str, to: &'a str) -> Pin<Box<dyn Future<Output = IoResult<()>> + Send + 'a>> {
         Box::pin(async move {
             Gate { inner: self.inner.clone(), tag: self.tag }.await;
-            match self.begin(format!("rename {} {}", from, to), None) {
+            match self.begin(format!("rename {} {}", from, to), None).filter(|f| !f.is_read()) {
                 None => {
                     let mut g = self.inner.lock().unwrap();
                     match g.objects.remove(from) {
                         Some(o) => {
-                            g.objects.insert(to.to_string(), o);
+                            if let Some(old) = g.objects.insert(to.to_string(), o) {
+                                g.previous.insert(to.to_string(), old);
+                            }
                             Ok(())
                         }
                         None => Err(IoError::new(ErrorKind::NotFound, format!("Source key not found: {}", from))),
@@ -250,7 +385,7 @@ impl ObjectStore for FaultStore {
         Box::pin(async move {
             Gate { inner: self.inner.clone(), tag: self.tag }.await;
             self.inner.lock().unwrap().unmodelled += 1;
-            match self.begin(format!("head {}", key), None) {
+            match self.begin(format!("head {}", key), None).filter(|f| !f.is_read()) {
                 None => self
                     .inner
                     .lock()
@@ -358,6 +493,29 @@ pub fn refs_complete(img: &BTreeMap<String, Vec<u8>>) -> bool {
     }
 }
 
+/// why the manifest of an image does not reference only complete objects
+pub fn refs_status(img: &BTreeMap<String, Vec<u8>>) -> Option<(&'static str, String)> {
+    match img.get(&format!("{}/manifest.json", PREFIX)) {
+        None => None,
+        Some(bytes) => match serde_json::from_slice::<Manifest>(bytes) {
+            Err(_) => Some(("manifest-unparsable", "manifest.json".into())),
+            Ok(m) => {
+                for s in &m.segments {
+                    match img.get(&s.key) {
+                        None => return Some(("missing-segment", s.key.clone())),
+                        Some(d) => {
+                            if decode_segment(d).is_none() {
+                                return Some(("invalid-segment", s.key.clone()));
+                            }
+                        }
+                    }
+                }
+                None
+            }
+        },
+    }
+}
+
 pub async fn recover_image(img: &BTreeMap<String, Vec<u8>>, rid: u64) -> Result<RecoveredState, RecoveryError> {
     let st = FaultStore::from_image(img);
     RecoveryManager::new(st, PREFIX, rid).recover().await
@@ -377,6 +535,10 @@ pub struct Proc {
     pub acked_at: Vec<(u64, usize)>,
     /// segments written by flushes that returned Ok: (id, size_bytes, updates)
     pub segs: Vec<(u64, u64, Vec<Upd>)>,
+    /// op lines of this case, emitted by `commit` (the NEW line depends on what became of the
+    /// read faults)
+    pub lines: Vec<(String, String)>,
+    pub faults: Vec<(u64, Fault)>,
 }
 
 impl Proc {
@@ -395,18 +557,65 @@ impl Proc {
             g.record = true;
             g.faults = faults.iter().cloned().collect();
         }
-        let mut line = format!("NEW {} {}", rid, faults.len());
+        let _ = &out;
+        let mut text = format!("NEW {} {}", rid, faults.len());
         for (i, f) in faults {
-            line.push_str(&format!(" {} {}", i, f.name()));
+            text.push_str(&format!(" {} {:?}", i, f));
         }
-        let mut p = Proc { store, pers, rid, text: String::new(), acked: Vec::new(), pending: Vec::new(), acked_at: vec![(0, 0)], segs: Vec::new() };
-        p.log(out, line, "ok".into());
-        p
+        text.push(';');
+        Proc { store, pers, rid, text, acked: Vec::new(), pending: Vec::new(), acked_at: vec![(0, 0)], segs: Vec::new(), lines: Vec::new(), faults: faults.to_vec() }
     }
-    pub fn log(&mut self, out: &mut Out, op: String, ans: String) {
+    pub fn log(&mut self, _out: &mut Out, op: String, ans: String) {
         self.text.push_str(&op);
         self.text.push(';');
-        out.op(op, ans);
+        self.lines.push((op, ans));
+    }
+    /// inject a fault at a (future) call index
+    pub fn set_fault(&mut self, idx: u64, f: Fault) {
+        self.faults.push((idx, f));
+        self.store.inner.lock().unwrap().faults.insert(idx, f);
+        self.text.push_str(&format!("FAULT {} {:?};", idx, f));
+    }
+    /// read faults whose mangled body the format could not tell from valid different content, or
+    /// that damaged the object at rest
+    pub fn undetectable(&self) -> Vec<ReadFaultRec> {
+        self.store.inner.lock().unwrap().read_faults.iter().filter(|r| r.outcome == "accepted-different" || r.persistent).cloned().collect()
+    }
+    /// emit the op lines of this case for the model — unless a read fault had no counterpart in
+    /// the model (accepted as different content, or at-rest damage): then the case is oracle-only
+    pub fn commit(&mut self, out: &mut Out) {
+        let recs = self.store.inner.lock().unwrap().read_faults.clone();
+        for r in &recs {
+            out.count(&format!("read-fault:{}{}:{}:{}", r.kind, if r.persistent { "(at-rest)" } else { "" }, r.object, r.outcome));
+        }
+        if !self.undetectable().is_empty() {
+            out.count("correspondence:oracle-only-case(read fault without model counterpart)");
+            return;
+        }
+        if !PARTIAL_DECODE_SKIPS && recs.iter().any(|r| r.outcome == "validates-undecodable") {
+            out.count("correspondence:oracle-only-case(partially decodable read, fix pending)");
+            return;
+        }
+        let mut eff: Vec<(u64, &'static str)> = Vec::new();
+        let mut fs = self.faults.clone();
+        fs.sort();
+        for (i, f) in &fs {
+            if !f.is_read() {
+                eff.push((*i, f.name()));
+            } else if let Some(r) = recs.iter().find(|r| r.idx == *i) {
+                if r.outcome == "rejected" || r.outcome == "validates-undecodable" {
+                    eff.push((*i, "corrupt"));
+                }
+            }
+        }
+        let mut line = format!("NEW {} {}", self.rid, eff.len());
+        for (i, n) in &eff {
+            line.push_str(&format!(" {} {}", i, n));
+        }
+        out.op(line, "ok".into());
+        for (o, a) in self.lines.drain(..) {
+            out.op(o, a);
+        }
     }
     pub fn push(&mut self, out: &mut Out, u: &Upd) {
         let d = ReplicationDelta::new(u.0.clone(), u.1.clone(), ReplicaId::new(self.rid));
@@ -520,61 +729,181 @@ async fn crash_points(out: &mut Out, p: &mut Proc, all: &[Upd]) {
             let r = recover_image(&img, p.rid).await;
             let refs = refs_complete(&img);
             let ans = format!("{} refs={}", show_rec(&r), refs as u8);
-            out.op(format!("CRASH {} {}", c, tornflag), ans);
+            p.lines.push((format!("CRASH {} {}", c, tornflag), ans));
             out.count("crash-point");
             // which flushes had returned Ok when call c was issued?
             let nack = p.acked_at.iter().filter(|(at, _)| *at <= c as u64).map(|(_, n)| *n).max().unwrap_or(0);
-            check_image(out, p, &r, refs, &p.acked[..nack].to_vec(), co, &format!("crash@{}{} of {} ({})", c, if tornflag == 1 { "+torn" } else { "" }, total, s.call));
+            check_image_at(out, p, &img, &r, &p.acked[..nack].to_vec(), co, &format!("crash@{}{} of {} ({})", c, if tornflag == 1 { "+torn" } else { "" }, total, s.call), c as u64);
         }
     }
     // the final image (no crash)
     let img = p.store.image();
     let r = recover_image(&img, p.rid).await;
     let refs = refs_complete(&img);
-    out.op(format!("CRASH {} 0", total), format!("{} refs={}", show_rec(&r), refs as u8));
+    p.lines.push((format!("CRASH {} 0", total), format!("{} refs={}", show_rec(&r), refs as u8)));
     let acked = p.acked.clone();
-    check_image(out, p, &r, refs, &acked, co, "final image");
+    check_image_at(out, p, &img, &r, &acked, co, "final image", total);
 }
 
-fn check_image(out: &mut Out, p: &Proc, r: &Result<RecoveredState, RecoveryError>, refs: bool, acked: &[Upd], co: bool, at: &str) {
-    let replay = |extra: serde_json::Value| json!({"workload": p.text, "at": at, "store_calls": p.store.inner.lock().unwrap().log.clone(), "detail": extra});
-    if !refs {
-        out.violation("C12:manifest-references-incomplete-object", "the manifest references a missing or partially written object", replay(json!(null)));
+/// oracle on one store image (crash point `call`, or the final image).
+/// Cause first: if a read fault of this run was accepted by the format as DIFFERENT valid content
+/// (the format cannot detect it) every violation of the case carries that cause; images taken
+/// after an at-rest corruption may fail to recover (the environment destroyed the object) but
+/// must never recover to a state that silently lacks confirmed updates (laundering).
+fn check_image_at(out: &mut Out, p: &Proc, img: &BTreeMap<String, Vec<u8>>, r: &Result<RecoveredState, RecoveryError>, acked: &[Upd], co: bool, at: &str, call: u64) {
+    let replay = |extra: serde_json::Value| json!({"workload": p.text, "at": at, "store_calls": p.store.inner.lock().unwrap().log.clone(), "read_faults": format!("{:?}", p.store.inner.lock().unwrap().read_faults), "detail": extra});
+    let und = p.undetectable();
+    let accepted: Option<&ReadFaultRec> = und.iter().find(|r| r.outcome == "accepted-different" && r.idx < call);
+    let at_rest: Option<&ReadFaultRec> = und.iter().find(|r| r.persistent && r.idx < call);
+    let cause = |normal: &str| -> String {
+        match accepted {
+            Some(a) => format!("C12:read-corruption-accepted:{}:{}", a.object, a.kind),
+            None => normal.to_string(),
+        }
+    };
+    let refs = refs_status(img);
+    if at_rest.is_some() && accepted.is_none() {
+        // the object at rest was destroyed by the environment: failing recovery is the correct
+        // answer; a recovery that succeeds without the confirmed updates is laundering
+        match r {
+            Err(_) => out.count("excluded:image-after-at-rest-corruption(recovery fails, detected)"),
+            Ok(rs) => {
+                if co && !lost_updates(rs, acked).is_empty() {
+                    out.violation("C12:at-rest-corruption-laundered", "after an object was damaged at rest recovery SUCCEEDS but the state lacks updates of flushes that returned Ok: the damage was laundered into valid objects", replay(json!({"lost": lost_updates(rs, acked)})));
+                }
+            }
+        }
+        return;
+    }
+    if let Some((why, key)) = &refs {
+        out.violation(&cause(&format!("C12:manifest-references-{}", why)), "the manifest references a missing or partially written / invalid object", replay(json!({"object": key})));
     }
     match r {
-        Err(e) => out.violation("C12:recovery-fails-on-crash-image", &format!("recover() fails on the store image: {}", e), replay(json!(null))),
+        Err(e) => out.violation(&cause("C12:recovery-fails-on-crash-image"), &format!("recover() fails on the store image: {}", e), replay(json!(null))),
         Ok(rs) => {
             if !co {
                 out.count("excluded:incoherent-workload");
                 return;
             }
-            let f = fold_recovered(rs);
-            let lost: Vec<String> = acked
-                .iter()
-                .filter(|(k, v)| match f.get(k) {
-                    None => true,
-                    Some(u) => MRv::from_real(&v.merge(u)) != MRv::from_real(u),
-                })
-                .map(|(k, v)| format!("{} {}", hex(k.as_bytes()), MRv::from_real(v).show()))
-                .collect();
+            let lost = lost_updates(rs, acked);
             if !lost.is_empty() {
-                let sig = classify_loss(p);
+                let sig = cause(&classify_loss(p));
                 out.violation(&sig, "an update of a flush that returned Ok is not contained in the recovered state", replay(json!({"lost": lost})));
             }
         }
     }
 }
 
+fn lost_updates(rs: &RecoveredState, acked: &[Upd]) -> Vec<String> {
+    let f = fold_recovered(rs);
+    acked
+        .iter()
+        .filter(|(k, v)| match f.get(k) {
+            None => true,
+            Some(u) => MRv::from_real(&v.merge(u)) != MRv::from_real(u),
+        })
+        .map(|(k, v)| format!("{} {}", hex(k.as_bytes()), MRv::from_real(v).show()))
+        .collect()
+}
+
 /// signature of a confirmed-update loss: which mechanism removed it
 fn classify_loss(p: &Proc) -> String {
     let g = p.store.inner.lock().unwrap();
-    let faulted_get_seg = g.faults.iter().any(|(i, _)| g.log.get(*i as usize).map(|l| l.contains("get ") && l.contains("/segments/")).unwrap_or(false));
-    if faulted_get_seg && p.text.contains("COMPACT") {
+    let faulted_get_seg = g.faults.iter().any(|(i, f)| !f.is_read() && g.log.get(*i as usize).map(|l| l.contains("get ") && l.contains("/segments/")).unwrap_or(false));
+    let read_fault_seg = g.read_faults.iter().any(|r| r.object == "segment");
+    if g.read_faults.iter().any(|r| r.outcome == "validates-undecodable") && p.text.contains("COMPACT") {
+        // a read that opens and validates but decodes only a prefix of the records
+        "C12:compact:partially-decoded-segment-removed".to_string()
+    } else if read_fault_seg && p.text.contains("COMPACT") {
+        "C12:compact:read-fault:confirmed-update-lost".to_string()
+    } else if faulted_get_seg && p.text.contains("COMPACT") {
         "C12:compact:get-error-treated-as-missing".to_string()
     } else if p.text.contains("COMPACT") {
         "C12:compact:confirmed-update-lost".to_string()
     } else {
         "C12:flush:confirmed-update-lost".to_string()
+    }
+}
+
+/// recovery itself under read faults: for every `get` of a recovery of the final image and a set
+/// of mangling kinds — the result must be an error or the state a clean recovery returns
+async fn recover_under_read_faults(out: &mut Out, p: &Proc, rng: &mut Rng) {
+    let img = p.store.image();
+    let clean = recover_image(&img, p.rid).await;
+    let clean_fold = match &clean {
+        Ok(rs) => sorted_map(&fold_recovered(rs)),
+        Err(_) => return,
+    };
+    let ncalls = {
+        let st = FaultStore::from_image(&img);
+        let _ = RecoveryManager::new(st.clone(), PREFIX, p.rid).recover().await;
+        st.calls()
+    };
+    for idx in 0..ncalls {
+        let kinds = [
+            Fault::Fail,
+            Fault::ReadEmpty { persistent: false },
+            Fault::ReadTrunc { permille: rng.range(1, 999) as u16, persistent: false },
+            Fault::ReadFlip { permille: rng.below(1000) as u16, n: 1, mask: 1 << rng.below(8), persistent: false },
+            Fault::ReadFlip { permille: rng.below(1000) as u16, n: rng.range(1, 3) as u8, mask: rng.range(1, 255) as u8, persistent: false },
+        ];
+        for f in kinds {
+            let st = FaultStore::from_image(&img);
+            st.inner.lock().unwrap().faults.insert(idx, f);
+            let r = RecoveryManager::new(st.clone(), PREFIX, p.rid).recover().await;
+            let rec = st.inner.lock().unwrap().read_faults.first().cloned();
+            let (object, outcome) = rec.as_ref().map(|r| (r.object, r.outcome)).unwrap_or(("-", "error"));
+            out.count(&format!("recover-read-fault:{}:{}:{}", f.name(), object, outcome));
+            if let Ok(rs) = &r {
+                let got = sorted_map(&fold_recovered(rs));
+                if got != clean_fold {
+                    let sig = if outcome == "accepted-different" {
+                        format!("C12:read-corruption-accepted:{}:{}", object, f.name())
+                    } else {
+                        "C12:recover:read-fault:silently-different-state".to_string()
+                    };
+                    out.violation(&sig, "recover() under a read fault returns Ok with a state different from a clean recovery (it must fail or return the same state)",
+                        json!({"workload": p.text, "recovery_call": idx, "fault": format!("{:?}", f), "read_fault": format!("{:?}", rec), "clean": show_upds(&clean_fold), "got": show_upds(&got)}));
+                }
+            }
+        }
+    }
+}
+
+/// two deltas such that the segment [d1, d2] cut right after d1's record + 24 bytes passes
+/// `SegmentReader::open` + `validate` (the first 24 bytes of d2's record read as a footer whose
+/// checksum is crc32(record 1)) but decodes only d1 — the input of /repo fix 82824d5.
+/// Returns (d1, d2, length of d2's record incl. its 4-byte length prefix).
+fn embedded_footer_pair() -> (Upd, Upd, usize) {
+    let ser_len = |u: &Upd| bincode::serialize(&ReplicationDelta::new(u.0.clone(), u.1.clone(), ReplicaId::new(1))).unwrap().len();
+    let base_key = "AAAAAAAAGESR";
+    let base = ser_len(&lww_upd(base_key, b"v2", 3, 1, false));
+    for n in 0u64.. {
+        let d1 = lww_upd("a", format!("n{}", n).as_bytes(), 2, 1, false);
+        let body = bincode::serialize(&ReplicationDelta::new(d1.0.clone(), d1.1.clone(), ReplicaId::new(1))).unwrap();
+        let mut rec1 = (body.len() as u32).to_le_bytes().to_vec();
+        rec1.extend_from_slice(&body);
+        let crc = crc32fast::hash(&rec1) as usize;
+        if crc >= base && crc < base + 60000 {
+            let key2 = format!("{}{}", base_key, "x".repeat(crc - base));
+            let d2 = lww_upd(&key2, b"v2", 3, 1, false);
+            debug_assert_eq!(ser_len(&d2), crc);
+            return (d1, d2, 4 + crc);
+        }
+    }
+    unreachable!()
+}
+
+fn gen_fault(rng: &mut Rng) -> Fault {
+    let persistent = rng.chance(1, 6);
+    match rng.below(11) {
+        0..=2 => Fault::Fail,
+        3..=4 => Fault::Partial,
+        5 => Fault::ReadEmpty { persistent },
+        6 => Fault::ReadTrunc { permille: rng.below(1001) as u16, persistent },
+        // positions spread over header / record region / footer; single-bit and multi-byte flips
+        7..=9 => Fault::ReadFlip { permille: *rng.pick(&[0u16, 10, 40, 90, 150, 300, 450, 600, 750, 900, 960, 990, 999]), n: rng.range(1, 3) as u8, mask: if rng.chance(1, 2) { 1 << rng.below(8) } else { rng.range(1, 255) as u8 }, persistent },
+        _ => Fault::ReadStale,
     }
 }
 
@@ -600,6 +929,17 @@ async fn case(out: &mut Out, rng: &mut Rng, corpus: Option<&str>) {
         Some("flush-put-fails") => (vec![0, 0, 1], vec![(1, Fault::Fail)]),
         // 2 segments, compaction whose get of the first segment fails transiently
         Some("compact-get-fails") => (vec![0, 1, 0, 1, 2], vec![(9, Fault::Fail)]),
+        // 3 segments, compaction (min 2) whose READ of segment 1 comes back mangled once (the
+        // object at rest is intact): the segment must be skipped — stay listed AND stay stored
+        Some("compact-read-flip") => (vec![0, 1, 0, 1, 0, 1, 3], vec![(14, Fault::ReadFlip { permille: 600, n: 1, mask: 4, persistent: false })]),
+        Some("compact-read-trunc") => (vec![0, 1, 0, 1, 0, 1, 3], vec![(14, Fault::ReadTrunc { permille: 700, persistent: false })]),
+        // third flush reads a STALE manifest (the version before the second flush): it re-allocates id 1
+        Some("flush-stale-manifest") => (vec![0, 1, 0, 1, 0, 1], vec![(8, Fault::ReadStale)]),
+        Some("recover-manifest-digit-flip") => (vec![0, 1, 0, 1], vec![]),
+        // segment 0 = [d1, d2] built so that a read cut right after d1's record (+24 bytes) still
+        // opens and validates but decodes only d1; the fault is set after the first flush
+        Some("compact-read-cut-at-record-boundary") => (vec![0, 0, 1, 0, 1, 3], vec![]),
+        Some("compact-read-empty") => (vec![0, 1, 0, 1, 0, 1, 3], vec![(13, Fault::ReadEmpty { persistent: false })]),
         _ => {
             let n = rng.range(2, 9) as usize;
             let mut s: Vec<u8> = Vec::new();
@@ -620,7 +960,7 @@ async fn case(out: &mut Out, rng: &mut Rng, corpus: Option<&str>) {
                 _ => 2,
             };
             let f = (0..nf)
-                .map(|_| (rng.below(4 * s.len() as u64 + 2), if rng.chance(1, 2) { Fault::Fail } else { Fault::Partial }))
+                .map(|_| (rng.below(4 * s.len() as u64 + 2), gen_fault(rng)))
                 .collect::<BTreeMap<u64, Fault>>()
                 .into_iter()
                 .collect();
@@ -628,7 +968,13 @@ async fn case(out: &mut Out, rng: &mut Rng, corpus: Option<&str>) {
         }
     };
     let npush = script.iter().filter(|x| **x == 0).count();
-    let ups = gen_workload_updates(rng, npush);
+    let mut ups = gen_workload_updates(rng, npush);
+    let mut cut_rec2: Option<usize> = None;
+    if corpus == Some("compact-read-cut-at-record-boundary") {
+        let (d1, d2, rec2) = embedded_footer_pair();
+        ups = vec![d1, d2, lww_upd("z", b"other", 9, 1, false)];
+        cut_rec2 = Some(rec2);
+    }
     let mut p = Proc::new(out, 1, &faults).await;
     let mut ui = 0;
     let mut any_err = false;
@@ -643,6 +989,16 @@ async fn case(out: &mut Out, rng: &mut Rng, corpus: Option<&str>) {
                 let ok = p.flush(out).await;
                 any_err |= !ok;
                 out.count("op:flush");
+                if let (Some(rec2), 1) = (cut_rec2, p.segs.len()) {
+                    // the compaction's get of segment 0 is store call 9
+                    let len = p.segs[0].1 as usize - rec2;
+                    p.set_fault(9, Fault::ReadTruncAbs { len: len as u32 });
+                }
+            }
+            3 => {
+                let c = CCfg { target: 1 << 20, min: 2, maxper: 5, cutoff: 0 };
+                let _ = p.compact(out, &c).await;
+                out.count("op:compact");
             }
             _ => {
                 // no tombstone GC here (cutoff 0): C13 owns GC
@@ -656,7 +1012,13 @@ async fn case(out: &mut Out, rng: &mut Rng, corpus: Option<&str>) {
     for (i, f) in &faults {
         let hit = p.store.inner.lock().unwrap().log.get(*i as usize).cloned();
         match hit {
-            Some(l) => out.count(&format!("fault:{}:{}", f.name(), l.split(' ').next().unwrap_or("?").split(':').nth(1).unwrap_or("?"))),
+            Some(l) => {
+                // fault kind × store operation × object × which high-level operation issued the call
+                let opname = l.split(' ').next().unwrap_or("?").split(':').nth(1).unwrap_or("?").to_string();
+                let object = if l.contains("manifest.json.tmp") { "tmp" } else if l.contains("manifest.json") { "manifest" } else if l.contains("/segments/") { "segment" } else { "other" };
+                out.count(&format!("fault:{}{}:{}:{}", f.name(), if f.persistent() { "(at-rest)" } else { "" }, opname, object));
+                out.count(&format!("fault-call-index:{}", if *i < 4 { "0-3" } else if *i < 8 { "4-7" } else if *i < 16 { "8-15" } else { "16+" }));
+            }
             None => out.count("fault:beyond-last-call"),
         }
     }
@@ -666,6 +1028,29 @@ async fn case(out: &mut Out, rng: &mut Rng, corpus: Option<&str>) {
     }
     p.rec(out).await.ok();
     crash_points(out, &mut p, &ups).await;
+    if corpus.is_some() || rng.chance(1, 4) {
+        recover_under_read_faults(out, &p, rng).await;
+    }
+    if corpus == Some("recover-manifest-digit-flip") {
+        // one bit of the manifest body flips on the read of a recovery: "segment-00000001" -> "…0"
+        let img = p.store.image();
+        let man = img.get(&format!("{}/manifest.json", PREFIX)).cloned().unwrap_or_default();
+        let needle = b"segment-00000001";
+        if let Some(at) = man.windows(needle.len()).position(|w| w == needle) {
+            let st = FaultStore::from_image(&img);
+            st.inner.lock().unwrap().faults.insert(0, Fault::ReadFlipAbs { pos: (at + needle.len() - 1) as u32, mask: 1 });
+            let r = RecoveryManager::new(st.clone(), PREFIX, p.rid).recover().await;
+            let clean = recover_image(&img, p.rid).await;
+            if let (Ok(a), Ok(b)) = (&r, &clean) {
+                if sorted_map(&fold_recovered(a)) != sorted_map(&fold_recovered(b)) {
+                    out.violation("C12:read-corruption-accepted:manifest:read-flip",
+                        "recover() under a read fault returns Ok with a state different from a clean recovery (it must fail or return the same state)",
+                        json!({"workload": p.text, "fault": "one bit of the manifest body flipped on read: segment key …00000001.seg read as …00000000.seg", "clean": show_upds(&sorted_map(&fold_recovered(b))), "got": show_upds(&sorted_map(&fold_recovered(a)))}));
+                }
+            }
+        }
+    }
+    p.commit(out);
     let _ = fold_real(&ups);
     out.case(&p.text, !p.acked.is_empty() && (any_err || !faults.is_empty() || p.text.contains("COMPACT")));
     out.sample(json!({"workload": p.text, "store_calls": p.store.inner.lock().unwrap().log.clone()}));
@@ -678,6 +1063,12 @@ pub fn run(a: &Args) {
     rt.block_on(async {
         case(&mut out, &mut Rng::new(0xC12), Some("flush-put-fails")).await;
         case(&mut out, &mut Rng::new(0xC12), Some("compact-get-fails")).await;
+        case(&mut out, &mut Rng::new(0xC12), Some("compact-read-flip")).await;
+        case(&mut out, &mut Rng::new(0xC12), Some("compact-read-trunc")).await;
+        case(&mut out, &mut Rng::new(0xC12), Some("compact-read-empty")).await;
+        case(&mut out, &mut Rng::new(0xC12), Some("flush-stale-manifest")).await;
+        case(&mut out, &mut Rng::new(0xC12), Some("recover-manifest-digit-flip")).await;
+        case(&mut out, &mut Rng::new(0xC12), Some("compact-read-cut-at-record-boundary")).await;
         for _ in 0..a.n {
             let mut r = rng.fork();
             case(&mut out, &mut r, None).await;
